@@ -1,3 +1,4 @@
 -- root import of everything the audit looks at (kept in sync by `check`, which fails if a Props file is missing here)
 import CliUtils.Props.C19
 import CliUtils.Props.C15
+import CliUtils.Props.C06
